@@ -284,6 +284,7 @@ def run(chk):
     _frameroom_rule(chk, full)
     _defpublish_rule(chk, full)
     _funcdefnull_rule(chk, full)
+    _refindex_rule(chk, full)
 
 
 def _envvalid_rule(chk, prog):
@@ -1603,4 +1604,65 @@ def _funcdefnull_rule(chk, prog):
                 chk.violation(rule, "marsh.c", fn.name, "unchecked:" + u.text(), u.loc,
                               "`%s` dereferences the definition of a function taken from a nested value without a NULL test: a reference "
                               "to the function that is still being read has def == NULL (segfault inside unmarshal)" % u.text())
+    chk.floor(rule, 3, n)
+
+
+def _refindex_rule(chk, prog):
+    """Back-references (LB_REFERENCE, LB_FUNCENV_REF, LB_FUNCDEF_REF) index the reader's tables of values, environments
+    and definitions seen so far with a number taken from the image.  Read with readnat the number cannot be negative
+    and an upper bound is enough; read with readint it is signed and needs both bounds - index -1 reads the vector's
+    header words and installs them as a pointer."""
+    rule = "C10-REFINDEX"
+    chk.rule(rule, "a back-reference index read from the image is bounded on both sides before it subscripts the reader's lookup tables (readnat counts as the lower bound)")
+    tu = prog.tus["marsh.c"]
+    n = 0
+    for fn in tu.funcs.values():
+        sites = []
+        for x in fn.nodes:
+            if x.k == "sub" and x.kids[0].k == "mem" and x.kids[0].rec == "UnmarshalState" and x.kids[0].field.startswith("lookup") \
+                    and strip_casts(x.kids[1]).k == "ref":
+                sites.append(x)
+        if not sites:
+            continue
+        chk.analysed(fn)
+        src = {}
+        for y in fn.nodes:
+            if y.k == "vardecl" and y.kids and strip_casts(y.kids[0]).k == "call":
+                src[y.name] = strip_casts(y.kids[0]).callee
+            elif y.k == "asg" and y.op == "=" and y.kids[0].k == "ref" and strip_casts(y.kids[1]).k == "call":
+                src[y.kids[0].name] = strip_casts(y.kids[1]).callee
+        IN, T = flow.condition_facts(fn)
+        seen = set()
+        for x, S in flow.states_at(fn, IN, T):
+            for sx in sites:
+                if not (x is sx or any(y is sx for y in x.walk())):
+                    continue
+                if id(sx) in seen:
+                    continue
+                seen.add(id(sx))
+                v = strip_casts(sx.kids[1]).name
+                n += 1
+                chk.instance(rule)
+                signed = src.get(v) != "readnat"
+                def has(ps, want):
+                    for (op, l, r, toks, ln, rn) in ps:
+                        if ln is None or rn is None:
+                            continue
+                        a, b = strip_casts(ln), strip_casts(rn)
+                        if want == "lo" and a.k == "ref" and a.name == v and b.k == "int" and ((op == ">=" and b.v == 0) or (op == ">" and b.v == -1)):
+                            return True
+                        if want == "hi" and a.k == "ref" and a.name == v and op == "<":
+                            return True
+                        if want == "hi" and b.k == "ref" and b.name == v and op == ">":
+                            return True
+                    return False
+                hi = bool(S) and all(has(ps, "hi") for ps in S)
+                lo = (not signed) or (bool(S) and all(has(ps, "lo") for ps in S))
+                if hi and lo:
+                    chk.ok(rule, "%s: `%s` (%s) bounded %s" % (fn.name, sx.text(), src.get(v, "?"), "above; readnat is never negative" if not signed else "on both sides"))
+                else:
+                    chk.violation(rule, "marsh.c", fn.name, "index:" + sx.kids[0].field, sx.loc,
+                                  "`%s` uses an index read with %s that is not bounded %s on every path: a negative back-reference reads "
+                                  "the words in front of the table (its header, or NULL - 8 when the table is still empty) and installs "
+                                  "them as an object pointer" % (sx.text(), src.get(v, "an unknown reader"), "below" if hi else "above"))
     chk.floor(rule, 3, n)
